@@ -596,3 +596,74 @@ frame("gotranx.codegen.ode.BaseGotranODECodePrinter", ["_print_Relational", "_pr
 for _q, _c in CONTRACTS.items():
     if _q.startswith((PP, OP, TP, TJ, TC, CP, JP)) or _q == "gotranx.codegen.c.bool_to_int":
         _c.bounded = True
+
+
+# ----------------------------------------------------------------------------------------------- JAX / C initial-value templates
+def _run_jax_init(text, which, names, overrides):
+    """the emitted JAX text is executed by the repository's own interpreter (jax is not in the tooling venv)"""
+    prog = ("import json, sys\nimport jax\nimport jax.numpy as numpy\njax.config.update('jax_enable_x64', True)\n"
+            + _index_text(which, names) + text + f"\nprint(json.dumps([float(x) for x in init_{which}_values(**{overrides!r})]))\n")
+    p = subprocess.run(["/venv/bin/python", "-c", prog], capture_output=True, text=True, timeout=300,
+                       env=dict(os.environ, JAX_PLATFORMS="cpu", PYTHONDONTWRITEBYTECODE="1"))
+    if p.returncode != 0:
+        return None
+    return json.loads(p.stdout.strip().splitlines()[-1])
+
+
+@registry.spec("jax_init_ok")
+def _jax_init_ok(ctx, st, text, which, names, values):
+    want = [float(v) for v in values]
+    if _run_jax_init(text, which, names, {}) != want:
+        return False
+    for i, n in enumerate(names):
+        w2 = list(want)
+        w2[i] = 77.5
+        if _run_jax_init(text, which, names, {n: 77.5}) != w2:
+            return False
+    return True
+
+
+@registry.spec("c_init_ok")
+def _c_init_ok(ctx, st, text, which, names, values):
+    """compile the emitted function with the slot-by-slot code it was given and read the array back"""
+    d = tempfile.mkdtemp(dir=os.environ.get("TMPDIR", "/tmp"))
+    try:
+        src, so = os.path.join(d, "m.c"), os.path.join(d, "m.so")
+        open(src, "w").write(text)
+        if subprocess.run(["gcc", "-shared", "-fPIC", "-O0", src, "-o", so], capture_output=True).returncode != 0:
+            return False
+        lib = ctypes.CDLL(so)
+        f = getattr(lib, f"init_{which}_values", None)
+        if f is None:
+            return False
+        n = len(values)
+        buf = (ctypes.c_double * (n + 2))(*([-123.0] * (n + 2)))
+        f.argtypes = [ctypes.POINTER(ctypes.c_double)]
+        f(ctypes.cast(ctypes.byref(buf, 8), ctypes.POINTER(ctypes.c_double)))  # guard cells before and after
+        got = list(buf)
+        return got[0] == -123.0 and got[-1] == -123.0 and got[1:-1] == [float(v) for v in values]
+    finally:
+        import shutil
+        shutil.rmtree(d, ignore_errors=True)
+
+
+@registry.spec("c_slot_code")
+def _c_slot_code(ctx, st, name, values):
+    return "\n".join(f"{name}[{i}] = {v};" for i, v in enumerate(values))
+
+
+for which in ("state", "parameter"):
+    arr = "states" if which == "state" else "parameters"
+    contract(TJ + f"init_{which}_values", params={"name": "PyStr", "code": "PyStr", "CASE": "any"}, ret="PyStr",
+             enum_params={"name": [arr, "x"], "code": [""], "CASE": _INITS},
+             where={f"{which}_names": "CASE[0]", f"{which}_values": "CASE[1]"},
+             ensures={"defaults_and_overrides_land_in_their_slot": f"jax_init_ok(result, '{which}', CASE[0], CASE[1])"},
+             properties=("C03", "C04"), note="BOUNDED: 0, 1 and 3 entries; the emitted text is executed under jax (jitted) with and without keyword overrides")
+    contract(TC + f"init_{which}_values", params={"name": "PyStr", "CASE": "any"}, ret="PyStr",
+             enum_params={"name": [arr, "x"], "CASE": _INITS},
+             where={f"{which}_names": "CASE[0]", f"{which}_values": "CASE[1]", "code": "c_slot_code(name, CASE[1])"},
+             ensures={"wraps_the_slot_code_it_is_given_and_nothing_else": f"c_init_ok(result, '{which}', CASE[0], CASE[1])"},
+             properties=("C02", "C04"), note="BOUNDED: 0, 1 and 3 entries; compiled with gcc and called on an array with guard cells")
+for _q, _c in CONTRACTS.items():
+    if _q.startswith((TJ, TC)):
+        _c.bounded = True
